@@ -229,8 +229,42 @@ def case_cg(T, n, max_iters, variant=0, complex_=False, x0mode="none", tol="sym"
         T.check("errors-length", errs is not None and len(errs) == max(steps, 0) if steps >= 1 else True, f"{None if errs is None else len(errs)} errors, {steps} steps")
 
 
+def case_zero_rhs_with_guess(T, n, max_iters, cols, via):
+    """a zero right-hand side (alone, or as one column of a block) together with a NON-zero initial guess: the solution of A x = 0 is exactly
+    zero whatever the guess; the other column is still solved from its own guess"""
+    from fractions import Fraction as F
+    dt = 'float64'
+    Am = K.mat(T, [[K.S(T, 2 if i == j else (-1 if abs(i - j) == 1 else 0)) for j in range(n)] for i in range(n)], dt)
+    xs = T.var("xs")
+    T.assume(xs * xs >= 1e-4)
+    T.assume(xs * xs <= 1e4)
+    g = K.mat(T, [[K.cst(T, v) for v in [F(1, 2), F(-1, 3), F(2, 5)][:n]]], dt)[0]
+    zero = K.zeros_like_mode(T, (n, ), dt)
+    from .c14 import _stack_cols
+    if cols == 1:
+        B, X0 = zero, xs * g
+    else:
+        s = T.var("s", positive=True)
+        T.assume(s >= 1e-2)
+        T.assume(s <= 1e2)
+        b1 = s * K.mat(T, [[K.cst(T, v) for v in [F(1), F(2), F(-1)][:n]]], dt)[0]
+        B, X0 = _stack_cols(T, [b1, zero], dt), _stack_cols(T, [xs * g, xs * g], dt)
+    Aop = cola.PSD(cola.ops.Dense(Am))
+    kwargs = dict(x0=X0, tol=1e-6, max_iters=max_iters)
+    if via == "function":
+        X, info = cg(Aop, B, **kwargs)
+    else:
+        X = cola.linalg.inv(Aop, cola.linalg.CG(**kwargs)) @ B
+    T.check("shape", tuple(X.shape) == tuple(B.shape), f"{X.shape} vs {B.shape}")
+    xz = X if cols == 1 else X[:, 1]
+    T.eq("zero right-hand side, non-zero guess: exactly zero solution", xz, zero, dtype=False)
+
+
 def cases(tier, seed):
     out = []
+    for n, m, c, via in ((2, 1, 1, "function"), (2, 5, 1, "function"), (2, 1, 2, "function"), (2, 2, 2, "function"), (3, 2, 2, "function"), (2, 1, 1, "inv"),
+                         (2, 2, 2, "inv"), (3, 3, 1, "function")):
+        out.append((f"zero-rhs-guess:n{n}m{m}c{c}:{via}", case_zero_rhs_with_guess, dict(n=n, max_iters=m, cols=c, via=via), dict(partial_ok=True)))
     sizes = (2, 3) if tier == "quick" else (2, 3, 4)
     for n in sizes:
         for m in range(0, 2 * n + 1):
